@@ -11,7 +11,7 @@ var declsHarness = []HarnessFile{
 }
 
 var declsOverrides = map[string]string{
-	"golang.org/x/tools/go/packages.Load": goosePkg + ".verifStubLoad",
+	"golang.org/x/tools/go/packages.Load":      goosePkg + ".verifStubLoad",
 	"(" + goosePkg + ".errorReporter).printGo": goosePkg + ".verifStubPrintGo",
 	"(" + goosePkg + ".Ctx).maybeDecls":        goosePkg + ".verifStubMaybeDecls",
 }
@@ -19,7 +19,7 @@ var declsOverrides = map[string]string{
 func init() {
 	big := engine.Options{Budget: 5_000_000, MaxPaths: 3_000_000}
 	Register(&Check{
-		ID:        "C04",
+		ID: "C04",
 		Custom: func(ctx *RunCtx) error {
 			// reference-site recording and naming: Coq's scoping rule applied to the emitted files
 			if err := tvRunOpts(ctx, gen.DepOrder(ctx.TierN()), tvOpts{Mode: "subset", Census: "order"}); err != nil {
@@ -42,7 +42,7 @@ func init() {
 		Trusted: []string{"gosym executor", "z3 4.8.12"},
 	})
 	Register(&Check{
-		ID:        "C07",
+		ID: "C07",
 		Custom: func(ctx *RunCtx) error {
 			// totality on the generated corpora: no crash, every declaration emitted or rejected with a
 			// structured, located error of a documented category
